@@ -46,7 +46,7 @@ theorem mix_torn (old new : Block) (h : new.length = old.length) (L : Nat) : Mix
     · right
       by_cases hn : i < new.length
       · rw [List.getElem?_append_left (by simp only [List.length_take]; omega)]
-        simp [List.getElem?_take, hi]
+        simp [hi]
       · have h1 : (List.take L new ++ List.drop L old).length ≤ i := by
           simp only [List.length_append, List.length_take, List.length_drop]; omega
         rw [List.getElem?_eq_none_iff.mpr h1, List.getElem?_eq_none_iff.mpr (by omega)]
@@ -96,9 +96,8 @@ theorem C22_old_or_new (P : Params) (old new : Block)
       · rw [e] at hv; exact absurd hv (by decide)
     · left
       have h4 := valid_len hold
-      have hne : ¬ old = [] := by intro e; rw [e] at h4; simp at h4
       have hP : ¬ P.n = 0 := by omega
-      simp [readAndRestore, hlt, hv, checkCow, hlo, hold, hne, hP]
+      simp [readAndRestore, hlt, hv, checkCow, hlo, hold, hP]
 
 /-! ### any number of readers, one after the other -/
 
@@ -123,9 +122,8 @@ theorem serves_read (P : Params) (old b : Block) (hlo : old.length = P.n) (hold 
     simp only at hl hv hc
     subst hc eb
     have h4 := valid_len hold
-    have hne : ¬ b = [] := by intro e; rw [e] at h4; simp at h4
     have hP : ¬ P.n = 0 := by omega
-    cases rw <;> simp [readAndRestore, hl, hv, checkCow, hlo, hold, hne, hP, Serves]
+    cases rw <;> simp [readAndRestore, hl, hv, checkCow, hlo, hold, hP, Serves]
 
 theorem crash_serves (P : Params) (old new : Block) (hlo : old.length = P.n)
     (hdet : Detects P old new) (c : Disk) (hc : Crash old new c) :
@@ -169,7 +167,7 @@ theorem C22_sequential_readers (P : Params) (old new : Block)
 /-- and after a read-write reader the block on disk is the block that was served -/
 theorem C22_disk_after_rw_reader (P : Params) (old new : Block)
     (hlo : old.length = P.n) (hln : new.length = P.n)
-    (hold : valid P old = true) (hnew : valid P new = true) (hdet : Detects P old new)
+    (hold : valid P old = true) (hnew : valid P new = true)
     (c : Disk) (hc : Crash old new c) :
     (readAndRestore P true c).1 = .ok (readAndRestore P true c).2.blk := by
   cases hc with
@@ -181,9 +179,8 @@ theorem C22_disk_after_rw_reader (P : Params) (old new : Block)
     by_cases hv : valid P t = true
     · simp [readAndRestore, hlt, hv]
     · have h4 := valid_len hold
-      have hne : ¬ old = [] := by intro e; rw [e] at h4; simp at h4
       have hP : ¬ P.n = 0 := by omega
-      simp [readAndRestore, hlt, hv, checkCow, hlo, hold, hne, hP]
+      simp [readAndRestore, hlt, hv, checkCow, hlo, hold, hP]
 
 /-! ### the step-wise reader run alone is the atomic reader -/
 
@@ -196,15 +193,15 @@ theorem solo_reader_is_atomic (P : Params) (rw : Bool) (d : Disk) :
   simp only [Reader.step, readAndRestore]
   by_cases hl : blk.length = P.n
   · by_cases hv : valid P blk = true
-    · simp [hl, hv, Reader.step]
+    · simp [hl, hv]
     · cases hc : checkCow P cow with
       | mk data sr =>
         by_cases hsr : sr = true
         · by_cases hd : data.length = 0
-          · simp [hl, hv, hc, hsr, hd, Reader.step]
-          · cases rw <;> simp [hl, hv, hc, hsr, hd, Reader.step]
-        · simp [hl, hv, hc, hsr, Reader.step]
-  · simp [hl, Reader.step]
+          · simp [hl, hv, hc, hsr, hd]
+          · cases rw <;> simp [hl, hv, hc, hsr, hd]
+        · simp [hl, hv, hc, hsr]
+  · simp [hl]
 
 /-! ### concurrent readers: the full statement, and its refutation -/
 
